@@ -191,6 +191,7 @@ type scenario struct {
 	scripts [][]opSpec
 	nt      int
 	weights map[string]int
+	focus   bool
 }
 
 func (sc *scenario) release() { sc.p.reg.release() }
@@ -224,7 +225,9 @@ func genOp(s *vs.Stream, p *pool, byFam map[string][]int, fams []string, weights
 		if e.recv != "" {
 			k := s.Intn(n, "op/recv")
 			switch e.recv {
-			case "G", "Seq", "Env", "Tree":
+			case "G":
+				op.Recv = p.pickGeom(s, "op/recvg")
+			case "Seq", "Env", "Tree":
 				op.Recv = k
 			default:
 				op.Recv = p.nth(e.recv, k)
@@ -288,6 +291,33 @@ func makeScenario(src *vs.Source, tier string, idx int64) (*scenario, error) {
 	maxOps := 6
 	if raceBuild {
 		maxOps = 3
+	}
+	// focus mode: all tasks work on a small subset of the operands (the
+	// original, its revision and the probe, when the pool has a revision) with
+	// a small set of binary operations: state carried from one call to the
+	// next (a cache keyed too coarsely) shows as a history-dependent result.
+	if m.Intn(4, "focus") == 3 {
+		if len(p.revOf) == 3 {
+			p.focus = append([]int(nil), p.revOf...)
+		} else {
+			a := m.Intn(len(p.geoms), "focus/a")
+			p.focus = []int{a, m.Intn(len(p.geoms), "focus/b")}
+		}
+		for _, f := range families {
+			sc.weights[f] = 0
+		}
+		sc.weights["predicate"] = 6
+		sc.weights["overlay"] = 2
+		sc.weights["validate"] = 1
+		res := map[string][]int{}
+		for _, f := range []string{"predicate", "overlay", "validate"} {
+			c := byFam[f]
+			for k := 0; k < 2 && len(c) > 0; k++ {
+				res[f] = append(res[f], c[m.Intn(len(c), "focus/op")])
+			}
+		}
+		byFam = res
+		sc.focus = true
 	}
 	hammer := m.Intn(6, "hammer") == 5 // every task hammers the same operation
 	var shared opSpec
@@ -373,6 +403,9 @@ func (e *engine) Run(src *vs.Source, tier string, idx int64) (res *simkit.RunRes
 		res.Stats["pools_lattice_class"]++
 	}
 	res.Stats["pools_with_revision_operand"] += int64(p.revisions)
+	if sc.focus {
+		res.Stats["focus_mode_runs"]++
+	}
 	if p.frozen {
 		res.Stats["pools_in_frozen_memory"]++
 	} else {
@@ -492,6 +525,7 @@ func (e *engine) Run(src *vs.Source, tier string, idx int64) (res *simkit.RunRes
 				setInflight(inflight, t, catalogue[op.Entry].family+":"+catalogue[op.Entry].name)
 				markOp(op)
 				r := execOp(op, p, op.Scribble)
+				tk.SetBudget(1 << 40)
 				setInflight(inflight, t, "")
 				logs[t].res = append(logs[t].res, r)
 				vs.OpBoundary(siteOpBound)
@@ -596,6 +630,7 @@ func (e *engine) Run(src *vs.Source, tier string, idx int64) (res *simkit.RunRes
 	res.Stats["context_switches"] += sim.NSwitch
 	res.Stats["switches_inside_operations_logged"] += midOp
 	res.Stats["fault/forced-gc"] += sim.Forced
+	res.Stats["lock_wait_detours"] += sim.LockDetours
 	res.Stats["fault/noncanonical-map-order"] += noncanon
 	res.Stats["map_range_invocations"] += rangeCalls
 	res.Stats["untagged_pointer_keys"] += untagged
